@@ -131,11 +131,11 @@ def run(args, env, cwd=None, shell=False, kill_tree=True, timeout=-1,
 
     thread = _SubprocessThread(executable_name, args, env, shell, cwd, verbose, stdout,
                                stderr, stdin_input)
-    thread.start()
-
     was_interrupted = False
 
     try:
+        # an interrupt may already arrive while we wait for the thread to start
+        thread.start()
         _join_with_keep_alive(keep_alive_output, thread, timeout)
     except KeyboardInterrupt:
         was_interrupted = True
@@ -143,8 +143,10 @@ def run(args, env, cwd=None, shell=False, kill_tree=True, timeout=-1,
     if was_interrupted:
         # is_alive() is not reliable after a join() that was interrupted by a signal:
         # CPython 3.12 reports False although the thread and the child are still running.
-        # The thread's own result fields tell whether it has finished.
-        still_running = thread.returncode is None and thread.exception is None
+        # The thread's own result fields tell whether it has finished; a thread without
+        # ident was never launched, so there is no child either.
+        still_running = (thread.ident is not None
+                         and thread.returncode is None and thread.exception is None)
     else:
         still_running = thread.is_alive()
 
